@@ -684,10 +684,12 @@ func (v *vc) execInstr(fr *frame, st *state, instr ssa.Instruction) bool {
 	case *ssa.Next:
 		v.next(fr, st, in)
 	case *ssa.Call:
+		v.goCaptureCheck(fr, st, in)
 		v.execCall(fr, st, in, in.Common(), in)
 	case *ssa.Defer:
 		st.defers = append(st.defers, deferEntry{guard: "true", instr: in, fr: fr})
 	case *ssa.Go:
+		v.goCaptureCheck(fr, st, in)
 		v.note("goroutine spawn not modelled (no interleaving semantics): %s in %s", calleeName(in.Common()), fr.fn.Name())
 	case *ssa.RunDefers:
 		v.runDefers(fr, st)
